@@ -1,5 +1,6 @@
 import Driver.Util
 import SynKitModel.Views
+import SynKitModel.ViewsRaw
 /-! Driver commands for the network views (C16).
 
 Net:    {"species": [s…], "rxns": [{"id","rule","r": [[s,c]…], "p": [[s,c]…]}…], "mol": [[s,m]…]}
@@ -145,6 +146,73 @@ def specHolds (mode : String) (mol : Bool) (orig got : Net) : Bool :=
   | "strings" => canonRxns got.rxns true false == canonRxns orig.rxns true false
   | _ => false
 
+/-! Raw graphs (what the importers accept beyond the exporters' output), see `ViewsRaw.lean`.
+bip_raw graph: {"nodes": [{"id": str|int, "kind","sp_label","rx_label","edge_id","mol": str|null}],
+                "edges": [{"u","v","stoich": nat|null}]}
+species_raw graph: {"nodes": [{"id": str, "label","mol": str|null}],
+                    "edges": [{"u","v","via": null|[str]|str,"rules": null|[str]|str,
+                               "stoich_r","stoich_p": nat|null,"r_map","p_map": [[k,c]]|null}]} -/
+def nidOfJson (j : Json) : Except String NodeId :=
+  match j with
+  | .str s => pure (.str s)
+  | _ => do pure (.int (← (fromJson? j : Except String Nat)))
+
+def optNat (j : Json) (k : String) : Except String (Option Nat) :=
+  match j.getObjVal? k with
+  | .ok .null => .ok none
+  | .ok v => (fromJson? v : Except String Nat).map some
+  | .error _ => .ok none
+
+def optSide (j : Json) (k : String) : Except String (Option Side) :=
+  match j.getObjVal? k with
+  | .ok .null => .ok none
+  | .ok v => (sideOfJson v).map some
+  | .error _ => .ok none
+
+def strsOfJson (a : Array Json) : Except String (List String) :=
+  a.toList.mapM fun s => (fromJson? s : Except String String)
+
+def rbgraphOfJson (j : Json) : Except String RBGraph := do
+  let nodes ← (← Driver.getArr j "nodes").toList.mapM fun n => do
+    pure ({ id := ← nidOfJson (← n.getObjVal? "id"), kind := ← optStr n "kind", spLabel := ← optStr n "sp_label",
+            rxLabel := ← optStr n "rx_label", edgeId := ← optStr n "edge_id", mol := ← optStr n "mol" } : RNode)
+  let edges ← (← Driver.getArr j "edges").toList.mapM fun e => do
+    pure ({ src := ← nidOfJson (← e.getObjVal? "u"), dst := ← nidOfJson (← e.getObjVal? "v"),
+            stoich := ← optNat e "stoich", role := none } : BEdge)
+  pure { nodes := nodes, edges := edges }
+
+def viaOfJson (j : Json) (k : String) : Except String ViaAttr :=
+  match j.getObjVal? k with
+  | .ok (.arr a) => (strsOfJson a).map ViaAttr.seq
+  | .ok (.str s) => .ok (.scalar s)
+  | _ => .ok .absent
+
+def rulesOfJson (j : Json) (k : String) : Except String RulesAttr :=
+  match j.getObjVal? k with
+  | .ok (.arr a) => (strsOfJson a).map RulesAttr.set
+  | .ok (.str s) => .ok (.scalar s)
+  | _ => .ok .absent
+
+def rsgraphOfJson (j : Json) : Except String RSGraph := do
+  let nodes ← (← Driver.getArr j "nodes").toList.mapM fun n => do
+    pure (⟨← Driver.getStr n "id", ← optStr n "label", ← optStr n "mol"⟩ : SNode)
+  let edges ← (← Driver.getArr j "edges").toList.mapM fun e => do
+    pure ({ src := ← Driver.getStr e "u", dst := ← Driver.getStr e "v", via := ← viaOfJson e "via",
+            rules := ← rulesOfJson e "rules", stoichR := ← optNat e "stoich_r", stoichP := ← optNat e "stoich_p",
+            rMap := ← optSide e "r_map", pMap := ← optSide e "p_map" } : REdge)
+  pure { nodes := nodes, edges := edges }
+
+def resEq (a b : Except Err Net) : Bool :=
+  match a, b with
+  | .ok x, .ok y => decide (x = y)
+  | .error e, .error f => decide (e = f)
+  | _, _ => false
+
+def nidSortedJson (xs : List NodeId) : Json := Json.arr ((xs.toArray.qsort nidLt).map nidJson)
+
+def candJson (cs : List (String × List String)) : Json :=
+  Json.arr (cs.map fun kv => Json.arr #[Json.str kv.1, Driver.strList (Driver.sortedStrs kv.2)]).toArray
+
 def flagsJson (f : BipFlags) : Json :=
   Json.mkObj [("sp", match f.speciesPrefix with | some s => Json.str s | none => Json.null),
     ("rp", match f.reactionPrefix with | some s => Json.str s | none => Json.null),
@@ -174,6 +242,42 @@ def handle : Driver.Handler := fun cmd j =>
   | "views.parse" => some do
     let ls ← (← Driver.getArr j "lines").toList.mapM fun s => (fromJson? s : Except String String)
     let r := match parseLinesFrom (← Driver.getBool j "suffix") (← Driver.getStr j "default_rule") {} (ls.map String.toList) with
+      | .ok st => Except.ok st.net
+      | .error e => Except.error e
+    pure (resJson r)
+  | "views.bip_raw" => some do
+    let g ← rbgraphOfJson (← j.getObjVal? "graph")
+    let o : ImpOpts := { speciesPrefix := ← Driver.getStr j "sp", reactionPrefix := ← Driver.getStr j "rp",
+                         defaultRule := ← Driver.getStr j "default_rule", molOn := ← Driver.getBool j "mol" }
+    let c := classify o g
+    pure (Json.mkObj [("re", resJson (ofBipartiteRaw genIdPlaceholder o g)),
+      ("species_nodes", nidSortedJson c.1), ("reaction_nodes", nidSortedJson c.2)])
+  | "views.bip_tie" => some do
+    -- an exported graph pushed through the raw importer with default options, next to the
+    -- importer the theorems are about
+    let N ← netOfJson (← j.getObjVal? "net")
+    let fl ← (← Driver.getArr j "flags").toList.mapM flagsOfJson
+    pure (Json.arr (fl.map fun f =>
+      let g := toBipartite f N
+      Json.bool (resEq (ofBipartiteRaw genIdPlaceholder {} g.toRaw) (ofBipartite genIdPlaceholder g))).toArray)
+  | "views.species_raw" => some do
+    let g ← rsgraphOfJson (← j.getObjVal? "graph")
+    let dr ← Driver.getStr j "default_rule"
+    pure (Json.mkObj [("re", resJson (ofSpeciesGraphRaw genArcPlaceholder dr (← Driver.getBool j "mol") g)),
+      ("rules", candJson (ruleCandidatesRaw genArcPlaceholder dr g))])
+  | "views.species_tie" => some do
+    let N ← netOfJson (← j.getObjVal? "net")
+    let g := toSpeciesGraph (← Driver.getBool j "mol") N
+    pure (Json.bool (resEq (ofSpeciesGraphRaw genArcPlaceholder "r" true g.toRaw) (ofSpeciesGraph genArcPlaceholder g)))
+  | "views.parse_items" => some do
+    let items ← (← Driver.getArr j "items").toList.mapM fun it => do
+      let pr ← (fromJson? it : Except String (Array Json))
+      if pr.size ≠ 2 then throw "item"
+      let r ← match pr[1]! with
+        | .null => pure none
+        | v => (fromJson? v : Except String String).map some
+      pure (((← (fromJson? pr[0]! : Except String String)).toList, r) : List Char × Option String)
+    let r := match parseItemsFrom (← Driver.getBool j "suffix") (← Driver.getBool j "prefer") (← Driver.getStr j "default_rule") {} items with
       | .ok st => Except.ok st.net
       | .error e => Except.error e
     pure (resJson r)
